@@ -463,6 +463,8 @@ char* XMLReader::getAttribute(const char* name) const
 std::string XMLReader::getAttributeStr(std::string_view name) const
 {
     char* value = getAttribute(name.data());
+    if (value == nullptr)  // absent attribute
+        return {};
     auto res = std::string{value};
     xmlFree(value);
     return res;
